@@ -273,6 +273,37 @@ def _algebra(repo, rep):
                       where=wh, detail="pos argument %s depends on %s" % (
                           src(posarg), sorted(x for x in d
                                               if x not in ("self",))))
+    # Token is used wherever a str is: a method it overrides has the
+    # parameters and the defaults of the str method (split(',') on a token
+    # splits at every comma, like on a str)
+    import inspect
+    for name, m in sorted(ci.methods.items()):
+        if name.startswith("__") or not hasattr(str, name):
+            continue
+        try:
+            sig = inspect.signature(getattr(str, name))
+        except (TypeError, ValueError):
+            continue
+        want = [(p_.name, p_.default) for p_ in sig.parameters.values()
+                if p_.name != "self"]
+        a = m.node.args
+        pos = a.posonlyargs + a.args
+        defaults = [None] * (len(pos) - len(a.defaults)) + list(a.defaults)
+        have = []
+        for p_, d_ in list(zip(pos, defaults))[1:]:
+            if d_ is None:
+                have.append((p_.arg, inspect.Parameter.empty))
+            else:
+                try:
+                    have.append((p_.arg, ast.literal_eval(d_)))
+                except ValueError:
+                    have.append((p_.arg, src(d_)))
+        same = len(have) == len(want) and all(
+            h[1] == w[1] for h, w in zip(have, want))
+        rep.check(same, "R11.1", m.qualname, "Token.%s takes what str.%s "
+                  "takes, with the same defaults" % (name, name),
+                  construct="str-signature:" + name, where=L.where(m),
+                  detail="Token: %s; str: %s" % (have, want))
     rep.require_min("R11.1", 8, "Token methods building derived tokens")
     # the slice start of __getitem__: negative starts are not position
     # faithful -> callers on error paths must not use them (checked in R11.2)
